@@ -683,6 +683,13 @@ class Engine:
     def method_call(self, s, recv, mname, e):
         if recv.s == STR:
             return self.str_method(s, recv, mname, e)
+        if recv.s == TIME and mname == 'replace' and not e.args and e.keywords and all(k.arg in ('hour', 'minute', 'second', 'microsecond') and isinstance(k.value, ast.Constant) and k.value.value == 0 for k in e.keywords):
+            # d.replace(hour=0, minute=0, second=0[, microsecond=0]): the midnight of d - plus d's microseconds if those are not reset as well
+            given = {k.arg for k in e.keywords}
+            if {'hour', 'minute', 'second'} <= given:
+                if 'microsecond' in given: return [(s, V(midnight(recv.e), TIME))]
+                us = fresh('microseconds', REAL); s.assume(And(us >= 0, us < 1))          # the sub-second part of d: any value in [0, 1)
+                return [(s, V(midnight(recv.e) + us, TIME))]
         if not recv.s.is_ref:
             raise Unsupported(f'method .{mname} on {recv.s} @{e.lineno}')
         key = recv.s.cls + '.' + self.mangle(mname)
